@@ -342,6 +342,39 @@ def run(ctx):
         ctx.count("complex-ber")
         if abs(float(m(xc, yc)) - r[1] / r[0]) > 1e-6 or int(m.total_bits) != 2 * r[0] or int(m.error_bits) != 2 * r[1]:
             ctx.violation("C16/BitErrorRate/complex", "complex BER counts real and imaginary parts wrongly", {"x": xr[0], "y": yr[0], "n": n})
+    # complex forms of the block metrics: a block is in error when any of its complex elements differs, in the real OR the imaginary part
+    for case in range(24 if quick else 300):
+        Bsz, nrow, ncol = rng.choice([None, 1, 2, 4]), rng.choice([1, 2, 3]), rng.choice([4, 8])
+        re = [[float(rng.randint(0, 1)) for _ in range(ncol)] for _ in range(nrow)]
+        im = [[float(rng.randint(0, 1)) for _ in range(ncol)] for _ in range(nrow)]
+        re2, im2 = [list(r_) for r_ in re], [list(r_) for r_ in im]
+        kind = ("imag-only", "real-only", "both", "none")[case % 4]
+        for _ in range(rng.randint(1, 3)):
+            i_, j_ = rng.randrange(nrow), rng.randrange(ncol)
+            if kind in ("imag-only", "both"):
+                im2[i_][j_] = 1.0 - im2[i_][j_]
+            if kind in ("real-only", "both"):
+                re2[i_][j_] = 1.0 - re2[i_][j_]
+        xc = torch.complex(torch.tensor(re), torch.tensor(im))
+        yc = torch.complex(torch.tensor(re2), torch.tensor(im2))
+        code = lambda a, b_: [[u + 2 * v for u, v in zip(ra, rb)] for ra, rb in zip(a, b_)]      # noqa: E731
+        r = Ref("bler", 0.0, Bsz).count(code(re, im), code(re2, im2))
+        ctx.count("complex-bler")
+        for cname in ("BlockErrorRate", "SymbolErrorRate", "FrameErrorRate"):
+            try:
+                one = float(getattr(blermod, cname)(block_size=Bsz)(xc, yc))
+                sym = float(getattr(blermod, cname)(block_size=Bsz)(yc, xc))
+                ms = getattr(blermod, cname)(block_size=Bsz)
+                for i_ in range(nrow):
+                    ms.update(xc[i_:i_ + 1], yc[i_:i_ + 1])
+                st = float(ms.compute())
+            except Exception as ex:
+                ctx.note("%s on complex inputs raised %s" % (cname, str(ex)[:60]))
+                break
+            if max(abs(one - r[1] / r[0]), abs(sym - r[1] / r[0]), abs(st - r[1] / r[0])) > 1e-6:
+                ctx.violation("C16/%s/complex" % cname, "%s(block_size=%s) on complex inputs that differ in %s (%d x %d): one-shot %r, swapped %r, streamed row by row %r; exactly %d of %d blocks differ" % (
+                    cname, Bsz, kind, nrow, ncol, one, sym, st, r[1], r[0]), {"re": re, "im": im, "re2": re2, "im2": im2, "block_size": Bsz})
+                break
     m = BitErrorRate()
     m.update(torch.tensor([1.0, 0.0]), torch.tensor([0.0, 0.0]))
     try:
